@@ -499,6 +499,7 @@ func (s *Session) RunCheck(ps *PropSpec, opts CheckOpts) int {
 		"pinned_clauses":               len(ps.Pinned),
 		"thorough_only_functions":      ps.ThoroughFunctions,
 		"slow_obligations":             slowList(sums, float64(s.TimeoutS)*0.4),
+		"slowest_obligations":          slowest(sums, 5),
 		"discharged_only_under_known_finding_exclusion": nKnown,
 		"sweep_packages":            ps.Sweep,
 		"sweep_not_covered":         ps.SweepExclude,
@@ -828,4 +829,15 @@ func exportedKey(sk string) bool {
 		return recv != "" && recv[0] >= 'A' && recv[0] <= 'Z'
 	}
 	return true
+}
+
+// slowest: the n obligations whose slowest query instance took longest (headroom against the per-query limit).
+func slowest(sums []*OblSummary, n int) []string {
+	cp := append([]*OblSummary(nil), sums...)
+	sort.Slice(cp, func(i, j int) bool { return cp[i].MaxTime > cp[j].MaxTime })
+	out := []string{}
+	for i := 0; i < n && i < len(cp); i++ {
+		out = append(out, fmt.Sprintf("%s (%.2fs)", shortObl(cp[i].Name), cp[i].MaxTime))
+	}
+	return out
 }
